@@ -218,6 +218,21 @@ func (fx *FnExec) bindResults(st *State, v ssa.Value, sig *types.Signature, resu
 func (fx *FnExec) doCallInstr(st *State, fr *frame, x *ssa.Call) bool {
 	cc := x.Common()
 	if b, ok := cc.Value.(*ssa.Builtin); ok {
+		if b.Name() == "append" && len(cc.Args) == 2 && !localBuilt(cc.Args[0], map[ssa.Value]bool{}) {
+			// in place or reallocated: two paths rather than one ite-laden state
+			s2 := st.clone()
+			st.path = append(st.path, "append:inplace")
+			st.appendCase = 1
+			fx.doBuiltin(st, fr, x, b)
+			st.appendCase = 0
+			fx.resumeAfter(st, fr, x)
+			s2.path = append(s2.path, "append:realloc")
+			s2.appendCase = 2
+			fx.doBuiltin(s2, fr, x, b)
+			s2.appendCase = 0
+			fx.resumeAfter(s2, fr, x)
+			return false
+		}
 		fx.doBuiltin(st, fr, x, b)
 		return true
 	}
@@ -370,6 +385,13 @@ func (fx *FnExec) ghostSets(st *State, fr *frame, site ssa.Instruction) {
 			env.vars[names[i]] = cv
 			if rs.Len() == 1 {
 				env.vars["result"] = cv
+			}
+		}
+	}
+	if ci, ok := site.(ssa.CallInstruction); ok {
+		for i, a := range ci.Common().Args {
+			if _, dup := env.vars[fmt.Sprintf("arg%d", i)]; !dup {
+				env.vars[fmt.Sprintf("arg%d", i)] = cval{t: st.val(a), typ: a.Type(), sort: fx.sortOf(a.Type())}
 			}
 		}
 	}
@@ -983,6 +1005,12 @@ func (fx *FnExec) applyContract(st *State, fr *frame, tgt callTarget, sig *types
 	for _, c := range fc.Ensures {
 		v, err := env.safeEval(c.Expr)
 		if err != nil {
+			// A postcondition that names a local of the (verified) callee says
+			// nothing a caller can use: it is proved at the callee's returns and
+			// simply not exported. Dropping an assumption is sound.
+			if !fc.Assumed && !fc.Trusted && strings.Contains(err.Error(), "unknown identifier") {
+				continue
+			}
 			panic(fmt.Sprintf("%s:%d: %v", c.File, c.Line, err))
 		}
 		st.assume(v.t)
@@ -1347,6 +1375,10 @@ func (fx *FnExec) doAppend(st *State, fr *frame, x *ssa.Call) {
 		// through any other reference, except by a local alias of the same
 		// array (not modelled); the new-array view keeps loop summaries simple.
 		st.assume("(= " + fits + " false)")
+		if st.appendCase == 0 {
+			st.appendCase = 2
+			defer func() { st.appendCase = 0 }()
+		}
 	} else {
 		st.assume("(= " + fits + " (and (not (= (sptr " + s + ") 0)) (> " + lt + " 0) (<= (+ " + ls + " " + lt + ") (scap " + s + "))))")
 	}
@@ -1369,8 +1401,20 @@ func (fx *FnExec) doAppend(st *State, fr *frame, x *ssa.Call) {
 		st.assume(fmt.Sprintf("(forall ((q.i Int)) (! (= (select %s q.i) (ite (and (<= %s q.i) (< q.i (+ %s %s))) %s (select %s q.i))) :pattern ((select %s q.i))))", arrI, start, start, lt, src, base, arrI))
 	}
 	tp := "(ite " + fits + " (sptr " + s + ") " + r + ")"
-	st.heapSet(mn, ms, "(store "+mem+" "+tp+" (ite "+fits+" "+arrI+" "+arr+"))")
-	res := fmt.Sprintf("(ite %s (mkslice (sptr %s) (soff %s) (+ %s %s) (scap %s)) (mkslice %s 0 (+ %s %s) %s))", fits, s, s, ls, lt, s, r, ls, lt, cp)
+	var res string
+	switch st.appendCase {
+	case 1:
+		st.assume(fits)
+		st.heapSet(mn, ms, "(store "+mem+" (sptr "+s+") "+arrI+")")
+		res = fmt.Sprintf("(mkslice (sptr %s) (soff %s) (+ %s %s) (scap %s))", s, s, ls, lt, s)
+	case 2:
+		st.assume("(not " + fits + ")") // redundant for a locally built slice
+		st.heapSet(mn, ms, "(store "+mem+" "+r+" "+arr+")")
+		res = fmt.Sprintf("(mkslice %s 0 (+ %s %s) %s)", r, ls, lt, cp)
+	default:
+		st.heapSet(mn, ms, "(store "+mem+" "+tp+" (ite "+fits+" "+arrI+" "+arr+"))")
+		res = fmt.Sprintf("(ite %s (mkslice (sptr %s) (soff %s) (+ %s %s) (scap %s)) (mkslice %s 0 (+ %s %s) %s))", fits, s, s, ls, lt, s, r, ls, lt, cp)
+	}
 	if !single {
 		res = "(ite (= " + lt + " 0) " + s + " " + res + ")"
 	}
